@@ -80,6 +80,7 @@ type c07Op struct {
 }
 
 type c07Plan struct {
+	Setup   []c07Op   `json:"setup,omitempty"` // sequential prefix, executed before the goroutines start (sched stream)
 	Writers [][]c07Op `json:"writers"`
 	Readers [][]c07Op `json:"readers"`
 	Default bool      `json:"default_rule"`
@@ -554,7 +555,10 @@ func c07Run(p c07Plan, r *vf.Rand) ([]c07Rec, bool) {
 // on which the operations linearized so far have been executed one after the other.  Returns an order
 // (indices into hist) or nil.  Memo key: set of linearized operations + order of the successful changes among
 // them (lookups and rejected changes do not change the state of the repository).
-func c07Linearize(hist []c07Rec, def bool) []int {
+func c07Linearize(hist []c07Rec, def bool) []int { return c07LinearizeOn(hist, c07New(def)) }
+
+// c07LinearizeOn: the same, starting from the given (quiescent) repository
+func c07LinearizeOn(hist []c07Rec, start *c07Sys) []int {
 	n := len(hist)
 	if n > 62 {
 		panic("c07: plan too large for the search")
@@ -620,7 +624,7 @@ func c07Linearize(hist []c07Rec, def bool) []int {
 		return false
 	}
 
-	if rec(0, c07New(def), "") {
+	if rec(0, start, "") {
 		return order
 	}
 
